@@ -1,9 +1,13 @@
 """C19 -- graph algorithms scale polynomially, not with the number of paths.
 Operation counts, never seconds: the harness runs the real SelectTargetsForBuild / GetAncestors /
 GetDescendants on ladder(w,d), dense and chain families and reports the exact number of entries
-into the recursive function (see harness/go/select/main.go for why the counts are exact); the
-model's instrumented twins (Select.v: *_paths_c, *_visited) predict them.  The oracle is the
-polynomial bound 4*(V+E+1)^2 evaluated on the implementation's own counts.
+into the recursive function (see harness/go/select/main.go for why the counts are exact).
+Tie: the counts must EQUAL the model's Select.*_visited_calls (one entry per distinct node: the
+traversals keep a visited set since the repair of C19-F1..F3); the model's cost (entries + edges
+inspected) is then given by C19_*_cost_exact and bounded by C19_*_linear, both re-checked on the
+model's own numbers.  The oracle is the polynomial bound 4*(V+E+1)^2 evaluated on the
+implementation's own counts; counts that equal the historical path enumeration (Select.*_paths_c)
+identify the findings C19-F1..F3.
 CLI tie: the number of lines `grog deps -t` / `grog rdeps -t` print on ladders (= calls - 1)."""
 import json, os, subprocess, time
 import vlib
@@ -60,6 +64,9 @@ def families(tier, r):
     fams.append(("dense", [("dense(%d)" % n, sl.dense(n)) for n in range(2, (18 if q else 21) + 1)]))
     fams.append(("dense3", [("dense_k(%d,3)" % n, sl.dense_k(n, 3)) for n in range(4, (20 if q else 28) + 1, 2)]))
     fams.append(("chain", [("chain(%d)" % n, sl.chain(n)) for n in ([2, 6, 12, 18, 24, 30, 32, 33, 36, 48] + ([] if q else [64, 128, 400]))]))
+    # depths far beyond what a path enumeration could finish (2^61 .. 2^201 paths): linear traversals take milliseconds
+    fams.append(("deep", [("ladder(2,%d)" % d, sl.ladder(2, d)) for d in ((60, 120) if q else (60, 120, 200))] +
+                         [("ladder(3,40)", sl.ladder(3, 40)), ("dense(40)", sl.dense(40))]))
     rnd = []
     for k in range(40 if q else 400):
         n = 2 + r.below(12)
@@ -123,30 +130,43 @@ def run(out, tier):
         if not big:
             mp = {"select": int(f[2]), "ancestors": int(f[3]), "descendants": int(f[4])}
             mv = {"select": int(f[6]), "ancestors": int(f[7]), "descendants": int(f[8])}
+            rest = f[12:]
             if mp != dp or int(f[10]) != V or int(f[11]) != E:
                 dp_bad.append(name)
         else:
             mp = dp     # above the cap the closed recurrence (validated against the model below it) stands in
             mv = {"select": int(f[2]), "ancestors": int(f[3]), "descendants": int(f[4])}
+            rest = f[8:]
+        # rest = calls c1 c2 c3 formula f1 f2 f3
+        mc = {"select": int(rest[1]), "ancestors": int(rest[2]), "descendants": int(rest[3])}
+        mf = {"select": int(rest[5]), "ancestors": int(rest[6]), "descendants": int(rest[7])}
+        ref = {"select": 1 + reach_count(g, top), "ancestors": 1 + reach_count(g, top),
+               "descendants": 1 + reach_count(g, bottom, rev=True)}
+        # C19_*_calls and C19_*_cost_exact, checked on the model's own numbers against a plain BFS
+        for a in ALGS:
+            if mc[a] != ref[a]:
+                out.violation("model: %s enters its recursive function %d times on %s, 1 + distinct reachable nodes = %d (contradicts C19_%s_calls)" % (
+                    a, mc[a], name, ref[a], a), {"theorem": "C19_%s_calls" % a, "graph": sl.graphspec(g)}, no_input=True)
+            if mv[a] != mf[a]:
+                out.violation("model: cost of %s is %d on %s, entries + edges leaving entered nodes = %d (contradicts C19_%s_cost_exact)" % (
+                    a, mv[a], name, mf[a], a), {"theorem": "C19_%s_cost_exact" % a, "graph": sl.graphspec(g)}, no_input=True)
         # the proved bound, checked on the model's own numbers
         for a in ALGS:
             if mv[a] > V + E + 1:
-                out.violation("model: visited variant of %s costs %d > V+E+1 = %d on %s (contradicts C19_*_linear)" % (a, mv[a], V + E + 1, name),
+                out.violation("model: %s costs %d > V+E+1 = %d on %s (contradicts C19_*_linear)" % (a, mv[a], V + E + 1, name),
                               {"theorem": "C19_%s_linear" % a, "graph": sl.graphspec(g)}, no_input=True)
-        model.append({"paths": mp, "visited": mv, "V": V, "E": E,
-                      "sets": {"select": 1 + reach_count(g, top), "ancestors": 1 + reach_count(g, top),
-                               "descendants": 1 + reach_count(g, bottom, rev=True)}})
+        model.append({"paths": mp, "visited": mv, "V": V, "E": E, "calls": mc})
     if dp_bad:
         out.violation("the closed recurrence calls(n) = 1 + sum calls(successors) disagrees with Select.paths_c on %s" % dp_bad[:3],
                       {"correspondence": "paths_c vs recurrence", "graphs": dp_bad[:5]}, no_input=True)
 
-    # the visited traversals return exactly the de-duplicated path enumerations (their correctness is tested, not proved)
+    # the traversals return exactly the de-duplicated path enumerations (C20_deps_is_dedup / C20_rdeps_is_dedup, re-checked)
     small = [(name, g, top, bottom) for fam, name, g, top, bottom in rows if paths_calls(g, top) <= 5000 and paths_calls(g, bottom, rev=True) <= 5000]
     _, so, _ = vlib.run_lines(drv, ["sets\t%s\t%d\t%d" % (sl.graphspec(g), top, bottom) for name, g, top, bottom in small])
     for (name, g, top, bottom), o in zip(small, so):
         f = o.split("\t") + ["", "", "", ""]
         if f[1] != f[2] or f[3] != f[4]:
-            out.violation("model: visited traversal and de-duplicated path enumeration differ on %s: %s" % (name, o),
+            out.violation("model: traversal and de-duplicated path enumeration differ on %s: %s" % (name, o),
                           {"correspondence": "Select.ancestors_visited/descendants_visited vs ancestors_set/descendants_set", "graph": sl.graphspec(g)}, no_input=True)
 
     # implementation
@@ -184,8 +204,8 @@ def run(out, tier):
     if inproc:
         for a in ALGS:
             eq_paths = all(impl[i] is None or impl[i][a] == model[i]["paths"][a] for i in range(len(rows)))
-            eq_vis = all(impl[i] is None or impl[i][a] == model[i]["sets"][a] for i in range(len(rows)))
-            variant = "paths" if eq_paths else ("visited" if eq_vis else "neither")
+            eq_vis = all(impl[i] is None or impl[i][a] == model[i]["calls"][a] for i in range(len(rows)))
+            variant = "visited" if eq_vis else ("paths" if eq_paths else "neither")
             worst = None
             for i, (fam, name, g, top, bottom) in enumerate(rows):
                 if impl[i] is None:
@@ -216,7 +236,8 @@ def run(out, tier):
                                           {"select": "select_paths_cost", "ancestors": "ancestors_paths_cost", "descendants": "descendants_paths_cost"}[a],
                                           ", as on all %d graphs of the run" % len(rows) if variant == "paths" else "")
                 rp = {"algorithm": a, "graph_name": name, "graph": sl.graphspec(g), "from_node": top if a != "descendants" else bottom,
-                      "calls": c, "V": V, "E": E, "bound": bound(V, E), "model_paths": model[i]["paths"][a], "model_visited_cost": model[i]["visited"][a],
+                      "calls": c, "V": V, "E": E, "bound": bound(V, E), "model_paths": model[i]["paths"][a], "model_calls": model[i]["calls"][a],
+                      "model_visited_cost": model[i]["visited"][a],
                       "harness_line": "cost\t%s\t%d\t%d" % (sl.graphspec(g), top, bottom)}
                 # class guard evaluated on the failing input: its count is the path count
                 f = findings.get(CLASSES[a])
@@ -224,8 +245,17 @@ def run(out, tier):
                     out.known(f["id"], text)
                 else:
                     out.violation("%s makes %d calls on %s: more than 4*(V+E+1)^2 = %d" % (WHERE[a], c, name, bound(V, E)), rp)
-            elif variant == "neither":
-                out.notes.append("%s: counts match neither Select.*_paths_c nor the visited traversal; compared with the bound only" % a)
+            elif variant != "visited":
+                # below the bound everywhere, but not the traversal the model (and C19_*_calls / _cost_exact) describes
+                j = next(i for i in range(len(rows)) if impl[i] is not None and impl[i][a] != model[i]["calls"][a])
+                fam, name, g, top, bottom = rows[j]
+                out.violation("correspondence Select.%s_visited_calls ~ %s broke: %d entries on %s, the model enters %d times (%s); no count exceeds "
+                              "the polynomial bound" % (a, WHERE[a], impl[j][a], name, model[j]["calls"][a],
+                                                        "the counts are those of the historical path enumeration" if variant == "paths" else
+                                                        "neither the visited traversal nor the path enumeration"),
+                              {"correspondence": "entries into the recursive function", "algorithm": a, "graph_name": name, "graph": sl.graphspec(g),
+                               "calls": impl[j][a], "model_calls": model[j]["calls"][a], "model_paths": model[j]["paths"][a],
+                               "harness_line": "cost\t%s\t%d\t%d" % (sl.graphspec(g), top, bottom)}, no_input=True)
         for fam, name, i in timeouts:
             if i is None:
                 continue
@@ -240,7 +270,8 @@ def run(out, tier):
         for i in (5, 14, len(rows) - 1):
             if i < len(rows) and impl[i]:
                 samples.append({"graph": rows[i][1], "V": model[i]["V"], "E": model[i]["E"], "impl_calls": {a: impl[i][a] for a in ALGS},
-                                "model_paths": model[i]["paths"], "model_visited_cost": model[i]["visited"], "impl_ns": impl[i]["ns"]})
+                                "model_calls": model[i]["calls"], "model_cost": model[i]["visited"], "historical_paths_calls": model[i]["paths"],
+                                "impl_ns": impl[i]["ns"]})
 
     conflict_table = conflict_cost(out, h, tier) if inproc else []
     cli = cli_tie(out, tier, findings)
@@ -248,12 +279,12 @@ def run(out, tier):
     for i, (fam, name, g, top, bottom) in enumerate(rows):
         if fam in ("ladder2", "chain") and impl[i]:
             table.append({"graph": name, "V": model[i]["V"], "E": model[i]["E"], "select_calls": impl[i]["select"],
-                          "descendants_calls": impl[i]["descendants"], "visited_cost_model": model[i]["visited"]["select"],
-                          "select_ns": impl[i]["ns"][0]})
+                          "descendants_calls": impl[i]["descendants"], "model_select_calls": model[i]["calls"]["select"],
+                          "model_select_cost": model[i]["visited"]["select"], "select_ns": impl[i]["ns"][0]})
     out.cov.update({
         "evaluations": len(rows) * (len(ALGS) if inproc else 0) + len(rows),
         "distinct_nontrivial": len(nontriv),
-        "rule": "graph families ladder(2,d), ladder(3,d), dense(n), dense_k(n,3), chain(n) and random DAGs; per graph the exact number of "
+        "rule": "graph families ladder(2,d), ladder(3,d), dense(n), dense_k(n,3), chain(n), deep ladders (d up to 120/200) and random DAGs; per graph the exact number of "
                 "entries into selectAllAncestorsForBuild (top node selected), GetAncestors(top), GetDescendants(bottom); non-trivial = more "
                 "than one call; distinct = distinct (algorithm, graph)",
         "samples": samples,
@@ -269,7 +300,8 @@ def run(out, tier):
     out.assumptions += [
         "calls are counted exactly: len(GetAncestors(n))+1, len(GetDescendants(n))+1, and Select() invocations on counting BuildNodes for "
         "selectAllAncestorsForBuild (one Select() immediately before every entry, none elsewhere)",
-        "cost of the visited variants = function entries + edges inspected; set membership is taken as one step",
+        "model cost = function entries + edges inspected (loop iterations); a map lookup/insert is taken as one step; the implementation's "
+        "entries are counted, its edge inspections follow from the entries by C19_*_cost_exact (every entered node's edge list is iterated once)",
         "output-conflict detection: the work of analysis.getAncestorSet is counted as GetLabel() calls on counting nodes during BuildGraph "
         "(every second node is a real Target declaring one shared output so that all pairs are compared, the others are counting nodes "
         "WITHOUT outputs); it depends on map iteration order and is compared with the polynomial bound only (no model twin, no theorem)",
@@ -317,7 +349,8 @@ def conflict_cost(out, h, tier):
 
 
 def cli_tie(out, tier, findings):
-    """`grog deps -t top` / `grog rdeps -t bottom` on a ladder print one line per path."""
+    """`grog deps -t top` / `grog rdeps -t bottom` on a ladder print one line per distinct target (before the repair
+    of C19-F2/F3: one line per dependency path)."""
     try:
         grog = vlib.build_grog()
     except vlib.HarnessUnavailable as e:
@@ -344,17 +377,17 @@ def cli_tie(out, tier, findings):
         res.append({"graph": "ladder(%d,%d)" % (w, d), "deps_t_lines": n1, "rdeps_t_lines": n2, "paths": [want, want2], "distinct": list(sets)})
         for cmd, n, wp, ws_, cls in (("deps -t", n1, want, sets[0], "ancestors"), ("rdeps -t", n2, want2, sets[1], "descendants")):
             if n == ws_:
-                continue   # de-duplicated output: linear
-            if n > bound(V, E):
-                f = findings.get(CLASSES[cls])
-                if f and n == wp:
-                    out.known(f["id"], "class=%s `grog %s` prints %d lines (one per dependency path) for %d distinct targets on ladder(%d,%d)" % (
-                        CLASSES[cls], cmd, n, ws_, w, d))
-                else:
-                    out.violation("`grog %s` on ladder(%d,%d) prints %d lines > 4*(V+E+1)^2 = %d" % (cmd, w, d, n, bound(V, E)),
-                                  {"graph_name": "ladder(%d,%d)" % (w, d), "graph": sl.graphspec(g), "cmd": "grog " + cmd, "lines": n})
-            elif n != wp and not out.violations:
-                out.notes.append("grog %s on ladder(%d,%d): %d lines, neither the path count %d nor the set size %d" % (cmd, w, d, n, wp, ws_))
+                continue   # one line per distinct target (= Select.*_visited_calls - 1)
+            f = findings.get(CLASSES[cls])
+            if f and n == wp:
+                out.known(f["id"], "class=%s `grog %s` prints %d lines (one per dependency path) for %d distinct targets on ladder(%d,%d)" % (
+                    CLASSES[cls], cmd, n, ws_, w, d))
+            else:
+                out.violation("`grog %s` on ladder(%d,%d) prints %d lines for %d distinct targets%s" % (
+                    cmd, w, d, n, ws_, " (more than 4*(V+E+1)^2 = %d)" % bound(V, E) if n > bound(V, E) else
+                    (" (one per dependency path)" if n == wp else "")),
+                    {"graph_name": "ladder(%d,%d)" % (w, d), "graph": sl.graphspec(g), "cmd": "grog " + cmd, "lines": n, "distinct": ws_,
+                     "paths": wp})
     return {"available": True, "runs": res}
 
 
@@ -370,14 +403,22 @@ def replay(out, path):
     res, timed_out, secs = run_family(h, [rp["harness_line"]], timeout=600)
     print("impl :", res, "timeout" if timed_out else "", "%.2fs" % secs)
     _, mo, _ = vlib.run_lines(vlib.build_driver("select"), [rp["harness_line"].replace("cost\t", "costv\t", 1)])
-    print("model (visited variants):", mo)
+    print("model:", mo)
+    mf = mo[0].split("\t") if mo else []
+    mc = {"select": int(mf[9]), "ancestors": int(mf[10]), "descendants": int(mf[11])} if len(mf) > 11 else None
     V, E = rp.get("V"), rp.get("E")
+    if V is None and "graph" in rp:
+        gl = [[] if x == "-" else x.split(".") for x in rp["graph"].split(",")]
+        V, E = len(gl), sum(len(x) for x in gl)
     if timed_out:
         out.violation("replay: still times out", rp)
-    elif res and V is not None:
+    elif res:
         f = res[0].split("\t")
         c = {"select": int(f[1]), "ancestors": int(f[2]), "descendants": int(f[3])}
-        a = rp.get("algorithm", "select")
-        print("calls:", c, "bound:", bound(V, E))
-        if c[a] > bound(V, E):
-            out.violation("replay: %s still makes %d calls > %d" % (a, c[a], bound(V, E)), rp)
+        a = rp.get("algorithm") or {"grog deps -t": "ancestors", "grog rdeps -t": "descendants"}.get(rp.get("cmd"))
+        print("calls:", c, "model calls:", mc, "bound:", bound(V, E))
+        for a in ([a] if a else ALGS):
+            if c[a] > bound(V, E):
+                out.violation("replay: %s still makes %d calls > %d" % (a, c[a], bound(V, E)), rp)
+            elif mc and c[a] != mc[a]:
+                out.violation("replay: %s still makes %d calls, the model (one entry per distinct node) %d" % (a, c[a], mc[a]), rp)
